@@ -44,6 +44,7 @@ type Contract struct {
 	ModifiesSrc []string
 	LoopInv    map[int][]Clause
 	LoopDec    map[int]Clause
+	LoopStep   map[int][]Clause // asserted at every back edge only
 	LoopMod    map[int][]SExpr
 	CallCl     []Clause
 	Trusted    bool // body not verified, contract assumed
@@ -529,6 +530,10 @@ func (ct *ContractTable) parseFile(repo, file string) error {
 					r = strings.TrimPrefix(kind, "invariant") + " " + r
 					kind = "invariant"
 				}
+				if strings.HasPrefix(kind, "step") {
+					r = strings.TrimPrefix(kind, "step") + " " + r
+					kind = "step"
+				}
 				tags, label, e, src, err := parseTagged(strings.TrimSpace(r))
 				if err != nil {
 					return errf("%v", err)
@@ -541,6 +546,13 @@ func (ct *ContractTable) parseFile(repo, file string) error {
 					cur.LoopInv[n] = append(cur.LoopInv[n], cl)
 				} else if kind == "invariant" {
 					cur.LoopInv[n] = append(cur.LoopInv[n], cl)
+				} else if kind == "step" {
+					// proved at the end of every iteration (each back edge), never assumed: may relate the state at the end of
+					// an iteration to the state at its beginning (x$N, ghost$N)
+					if cur.LoopStep == nil {
+						cur.LoopStep = map[int][]Clause{}
+					}
+					cur.LoopStep[n] = append(cur.LoopStep[n], cl)
 				} else if kind == "decreases" {
 					cur.LoopDec[n] = cl
 				} else {
